@@ -43,7 +43,7 @@ type c06Stats struct {
 
 func runForgeScenarios(rng *rand.Rand, n int, st *c06Stats, fail func(prop, mon, key, detail string, c interface{})) {
 	ctx := context.Background()
-	kinds := []string{"nosig", "wrongsig", "nokey", "otherkey", "flipsig", "foreignid", "aclpayload"}
+	kinds := []string{"nosig", "wrongsig", "nokey", "otherkey", "flipsig", "foreignid", "aclpayload", "forgedhead"}
 	for it := 0; it < n; it++ {
 		w := newWorld()
 		// an access controller whose verdict depends on the entry, not only on its writer
@@ -137,6 +137,14 @@ func runForgeScenarios(rng *rand.Rand, n int, st *c06Stats, fail func(prop, mon,
 		case "aclpayload":
 			// nothing is forged: the destination's access controller refuses the victim's payload
 			pac.deny[string(victim.GetPayload())] = true
+		case "forgedhead":
+			// the entry map is genuine; the HEAD list holds a tampered copy (same hash, other payload) of the head
+			forgedHeads = nil
+			for _, h := range a.Heads().Slice() {
+				c := cloneEntry(h)
+				c.Payload = []byte("forged-head")
+				forgedHeads = append(forgedHeads, c)
+			}
 		}
 		forged, err := ipfslog.NewLog(w.api, w.idents["A"], &ipfslog.LogOptions{ID: "L", Entries: forgedMap, Heads: forgedHeads})
 		if err != nil {
@@ -158,13 +166,29 @@ func runForgeScenarios(rng *rand.Rand, n int, st *c06Stats, fail func(prop, mon,
 			}()
 			_, jerr = dest.Join(forged, -1)
 		}()
-		if kind == "foreignid" {
-			// entries of another log are never added (the merge may skip them or fail, it must not admit them)
-			for _, e := range dest.GetEntries().Slice() {
-				if e.GetLogID() != "L" {
-					fail("C06", "admitted-entries-carry-log-id", "C06:join-admitted-foreign-log-id",
-						fmt.Sprintf("after the merge the log holds an entry with log id %q", e.GetLogID()), caseInfo)
-					break
+		if kind == "foreignid" || kind == "forgedhead" {
+			// entries of another log / unverified objects are never added or exposed (the merge may skip them
+			// or fail, it must not admit them): whatever the log lists, returns as heads or linearises is an
+			// entry of the log with the log's id that verifies
+			listed := map[string][]iface.IPFSLogEntry{"GetEntries": dest.GetEntries().Slice(), "Heads": dest.Heads().Slice(), "Values": dest.Values().Slice()}
+			for _, where := range []string{"GetEntries", "Heads", "Values"} {
+				for _, e := range listed[where] {
+					if e.GetLogID() != "L" {
+						fail("C06", "admitted-entries-carry-log-id", "C06:join-admitted-foreign-log-id",
+							fmt.Sprintf("after the merge %s() returns an entry with log id %q", where, e.GetLogID()), caseInfo)
+						break
+					}
+					if ee, ok := e.(*entry.Entry); ok {
+						if err := ee.Verify(w.idents["A"].Provider, nil); err != nil {
+							fail("C06", "admitted-entries-verify", "C06:join-exposes-unverified-entry",
+								fmt.Sprintf("after the merge %s() returns an entry (payload %q) that does not verify: %v", where, e.GetPayload(), err), caseInfo)
+							break
+						}
+					}
+					if _, ok := dest.Get(e.GetHash()); !ok {
+						fail("C02", "head-is-entry", "C02:head-not-entry", fmt.Sprintf("after the merge %s() returns an entry that the log does not hold", where), caseInfo)
+						break
+					}
 				}
 			}
 			if jerr == nil {
